@@ -1115,7 +1115,7 @@ def thorough(ctx):
         for i, s in enumerate(node.body):
             if isinstance(s, ast.Assign) and "name_idx_value" in ast.unparse(s.targets[0]):
                 old = node.body[i]
-                guard = ast.parse("if self.name_idx_value is None:\n    pass").body[0]
+                guard = ast.parse("if getattr(self, 'name_idx_value', None) is None:\n    pass").body[0]
                 guard.body = [old]
                 ast.copy_location(guard, old)
                 ast.fix_missing_locations(guard)
